@@ -107,6 +107,8 @@ func c07Witnesses() []struct {
 		{mk([]string{"Root", "S1"}, map[string][]lexgen.GRule{
 			"Root": {{Name: "P", Pattern: `(<)?\(([a-c]*)`, Action: "push", Target: "S1"}, {Name: "W", Pattern: `\s+`}},
 			"S1":   {{Name: "E", Pattern: `\2\)`, Action: "pop"}, {Name: "X", Pattern: `[^)]`}, {Action: "return"}}}), []string{"(ab", "<(ab", "(ab ab)", "(ab)) x"}},
+		// a very long run of consecutive lexer-elided tokens must not grow the stack
+		{mk([]string{"Root"}, map[string][]lexgen.GRule{"Root": {{Name: "comment", Pattern: `#[^\n]*`}, {Name: "nl", Pattern: `\n`}, {Name: "Id", Pattern: `[a-z]+`}}}), []string{strings.Repeat("# c\n", 400000) + "x", strings.Repeat("\n", 1000000)}},
 		{mk([]string{"Root", "S1"}, map[string][]lexgen.GRule{
 			"Root": {{Action: "include", Target: "S1"}, {Name: "Open", Pattern: `\(`, Action: "push", Target: "S1"}},
 			"S1":   {{Name: "Close", Pattern: `\)`, Action: "pop"}, {Name: "Id", Pattern: `[a-z]+`}, {Action: "return"}}}), []string{")", "a)", "(a))b", "(a))", "((a)"}},
@@ -127,10 +129,10 @@ func c07Child(c *mon.Child) {
 					continue
 				}
 				g, in := w.g, in
-				c.Begin(key, fmt.Sprintf("witness %s <- %q", g.String(), in))
+				c.Begin(key, fmt.Sprintf("witness %s <- %q", g.String(), trunc(in, 200)))
 				c.Eval(1)
 				lx, _ := def.LexString("w", in)
-				c07Drive(c, key, lx, symNames(def), in, func() string { return "witness rules: " + g.String() + fmt.Sprintf(" | input: %q", in) }, func() interface{} { return map[string]interface{}{"rules": g, "input": in} })
+				c07Drive(c, key, lx, symNames(def), in, func() string { return "witness rules: " + g.String() + fmt.Sprintf(" | input: %q", trunc(in, 200)) }, func() interface{} { return map[string]interface{}{"rules": g, "input": trunc(in, 2000)} })
 				c.Feature("witness_cases_of_repaired_panics")
 				c.End(key)
 			}
